@@ -687,7 +687,7 @@ def gen_count(rng: Rng, top: int = 10) -> int:
     return rng.choice([0, 0, 1, 2, 3, 4, 5, 6, 9, 10, 11, 12, top + 2, 50, 1000])
 
 
-def gen_nic_state(rng: Rng, capture: bool, protos: List[str], ports: List[int]) -> dict:
+def gen_nic_state(rng: Rng, protos: List[str], ports: List[int]) -> dict:
     speed = rng.choice([100, 100.0, 1000, 10, 0.5, 8])
     ns = {"enabled": rng.chance(2, 3), "speed": speed, "traffic": {}}
 
@@ -710,7 +710,7 @@ def gen_nic_state(rng: Rng, capture: bool, protos: List[str], ports: List[int]) 
                 ns["traffic"]["icmp"] = {"inbound": amount(), "outbound": amount()} if rng.chance(5, 6) else {}
             else:
                 ns["traffic"][p] = {q: {"inbound": amount(), "outbound": amount()} for q in ports if rng.chance(2, 3)}
-    if capture:
+    if rng.chance(1, 2):  # this interface's own network settings capture: it publishes its `nmne` entry (each interface on its own)
         if rng.chance(1, 5):
             ns["nmne"] = {}
         else:
@@ -733,7 +733,7 @@ def gen_rule_state(rng: Rng, ev, known_ips: List[str], stray_ip: bool) -> dict:
             "dst_wildcard_mask": o(WCS), "dst_port": o(PORTS), "match_count": 0}
 
 
-def gen_state(rng: Rng, ev, capture: bool, mon_protos: List[str], mon_ports: List[int], acl_ips: List[str], stray_ip: bool,
+def gen_state(rng: Rng, ev, mon_protos: List[str], mon_ports: List[int], acl_ips: List[str], stray_ip: bool,
               slots: int = 24) -> dict:
     nodes = {}
     for h in HOSTS[:2] + (["ghost"] if rng.chance(1, 6) else []):
@@ -757,7 +757,7 @@ def gen_state(rng: Rng, ev, capture: bool, mon_protos: List[str], mon_ports: Lis
                           "files": {x: {"health_status": rng.choice(ev["FileSystemItemHealthStatus"]), "visible_status": rng.choice(ev["FileSystemItemHealthStatus"]),
                                         "num_access": gen_count(rng)} for x in FILES[:2] if rng.chance(3, 4)}}
         ns["file_system"] = {"folders": folders, "num_file_creations": gen_count(rng, 3), "num_file_deletions": gen_count(rng, 3)}
-        ns["NICs"] = {i: gen_nic_state(rng, capture, mon_protos or PROTOS, mon_ports or [80]) for i in (1, 2, 3) if rng.chance(4, 5)}
+        ns["NICs"] = {i: gen_nic_state(rng, mon_protos or PROTOS, mon_ports or [80]) for i in (1, 2, 3) if rng.chance(4, 5)}
         for an in ACL_NAMES:
             ns[an] = {"acl": {i: (gen_rule_state(rng, ev, acl_ips, stray_ip) if rng.chance(1, 4) else None) for i in range(slots)}}
         nodes[h] = ns
@@ -957,11 +957,6 @@ def build_impl(cfg: dict):
         return None
 
 
-def set_capture(flag: bool):
-    from primaite.game.agent.observations.nic_observations import NICObservation
-    NICObservation.capture_nmne = flag
-
-
 def observe_impl(obj, state: dict) -> Tuple[Any, Optional[str], Any]:
     """(canonical observation | 'raised', exception text, raw observation)"""
     try:
@@ -1019,13 +1014,57 @@ def load_cfg(rel: str) -> dict:
     return cfg
 
 
+NMNE_KEYWORDS = [["DELETE"], ["DELETE", "SELECT"], ["SELECT", "INSERT", "DELETE", "ENCRYPT"], []]
+
+
+def gen_nmne_settings(rng: Rng, on: Optional[bool] = None) -> dict:
+    """one NMNEConfig as a scenario may write it: capture on / off, several keyword sets, the capture_by_* flags"""
+    d: Dict[str, Any] = {"capture_nmne": rng.chance(2, 3) if on is None else on, "nmne_capture_keywords": list(rng.choice(NMNE_KEYWORDS))}
+    for k in ("capture_by_direction", "capture_by_ip_address", "capture_by_protocol", "capture_by_port", "capture_by_keyword"):
+        if rng.chance(1, 5):
+            d[k] = rng.chance(1, 2)
+    return d
+
+
+def gen_nmne_config(net_cfg: dict, rng: Rng) -> None:
+    """the per-network `nmne_config` of a scenario: left as shipped / removed / `{}` / generated settings"""
+    k = rng.below(5)
+    if k == 0:
+        return
+    if k == 1:
+        net_cfg.pop("nmne_config", None)
+    elif k == 2:
+        net_cfg["nmne_config"] = {}
+    else:
+        net_cfg["nmne_config"] = gen_nmne_settings(rng)
+
+
+class NmneOverride:
+    """the process-wide override `NetworkInterface.nmne_config = NMNEConfig(...)` for the duration of a block (always restored)"""
+
+    def __init__(self, settings: Optional[dict]):
+        self.settings = settings
+
+    def __enter__(self):
+        from primaite.simulator.network.hardware.base import NetworkInterface
+        self.cls = NetworkInterface
+        self.before = NetworkInterface.__dict__.get("nmne_config", None)
+        if self.settings is not None:
+            from primaite.simulator.network.nmne import NMNEConfig
+            NetworkInterface.nmne_config = NMNEConfig(**self.settings)
+        return self
+
+    def __exit__(self, *a):
+        self.cls.nmne_config = self.before
+        return False
+
+
 def mutate_cfg(cfg: dict, rng: Rng) -> dict:
     """Generated family around a shipped scenario: observation options toggled, NMNE capture toggled, thresholds, flattening."""
     import copy
     cfg = copy.deepcopy(cfg)
     sim = cfg.setdefault("simulation", {}).setdefault("network", {})
-    if rng.chance(1, 2):
-        sim["nmne_config"] = {"capture_nmne": rng.chance(1, 2), "nmne_capture_keywords": ["DELETE", "SELECT"]}
+    gen_nmne_config(sim, rng)
     for agent in cfg.get("agents", []):
         osp = agent.get("observation_space")
         if not osp or osp.get("type") != "custom":
@@ -1068,11 +1107,6 @@ def agents_with_obs(game) -> List[Tuple[str, Any]]:
     return [(n, a) for n, a in game.agents.items() if type(a.observation_manager.obs).__name__ != "NullObservation"]
 
 
-def capture_flag() -> bool:
-    from primaite.game.agent.observations.nic_observations import NICObservation
-    return bool(NICObservation.capture_nmne)
-
-
 # ----------------------------------------------------------------------------------------------- ground truth from objects
 def _ekey(k):
     from enum import Enum
@@ -1089,7 +1123,7 @@ def nic_truth_tokens(num: int, nic) -> List[str]:
     ns = {"enabled": bool(nic.enabled), "speed": nic.speed, "traffic": traffic}
     tk, _ = nic_state_tokens(num, ns)
     tk = tk[:-1]  # drop the absent-nmne marker; truth carries the capture switch and the counters instead
-    cap = bool(nic.nmne_config and nic.nmne_config.capture_nmne)
+    cap = bool(nic.nmne_settings.capture_nmne)  # the interface's OWN settings: process-wide override if assigned, else its network's
     dd = nic.nmne.get("direction", {}) if isinstance(nic.nmne, dict) else {}
     i = dd.get("inbound", {}).get("keywords", {}).get("*", 0)
     u = dd.get("outbound", {}).get("keywords", {}).get("*", 0)
